@@ -22,3 +22,358 @@ pub fn parse_number(s: &str) -> (String, usize, usize) {
     };
     (desc, ps.cur_index, warnings)
 }
+
+// ------------------------------------------------------------------------------------------------
+// native twin of the K05a harness construction (used to replay Kani counterexamples with the real build)
+pub(crate) mod forms {
+    use super::super::*;
+    use crate::parse::Position;
+    use compact_str::CompactString;
+
+    pub fn loc() -> std::ops::Range<Position> {
+        Position::default()..Position::default()
+    }
+    pub fn leaf() -> Box<Expression> {
+        Box::new(Expression::LitNull { location: loc() })
+    }
+    pub fn afk(k: u8) -> ArrayFieldKind {
+        match k {
+            0 => ArrayFieldKind::EmptySlot,
+            1 => ArrayFieldKind::Normal { value: *leaf() },
+            _ => ArrayFieldKind::Spread { location: loc(), value: *leaf() },
+        }
+    }
+    pub fn ofk(k: u8) -> ObjectFieldKind {
+        match k {
+            0 => ObjectFieldKind::Named { name: CompactString::new_inline("a"), location: loc(), colon_location: None, value: *leaf() },
+            _ => ObjectFieldKind::Spread { location: loc(), value: *leaf() },
+        }
+    }
+    macro_rules! bin {
+        ($v:ident) => {
+            (Expression::$v { left: leaf(), right: leaf(), location: loc() }, 2usize)
+        };
+    }
+    macro_rules! un {
+        ($v:ident) => {
+            (Expression::$v { value: leaf(), location: loc() }, 1usize)
+        };
+    }
+    /// expression form number `v` (0..44) with three literal fields of kinds k0..k2, and its number of direct children
+    pub fn form(v: u8, k0: u8, k1: u8, k2: u8) -> (Expression, usize) {
+        match v {
+            0 => (Expression::ScopeRef { location: loc(), index: 0 }, 0),
+            1 => (Expression::DataField { name: CompactString::new_inline("a"), location: loc() }, 0),
+            2 => un!(ToStringWithoutUndefined),
+            3 => (Expression::LitUndefined { location: loc() }, 0),
+            4 => (Expression::LitNull { location: loc() }, 0),
+            5 => (Expression::LitStr { value: CompactString::new_inline("s"), location: loc() }, 0),
+            6 => (Expression::LitInt { value: 1, location: loc() }, 0),
+            7 => (Expression::LitFloat { value: 1.5, location: loc() }, 0),
+            8 => (Expression::LitBool { value: true, location: loc() }, 0),
+            9 => (Expression::LitObj { fields: vec![ofk(k0 % 2), ofk(k1 % 2), ofk(k2 % 2)], brace_location: (loc(), loc()) }, 3),
+            10 => (
+                Expression::LitArr { fields: vec![afk(k0), afk(k1), afk(k2)], bracket_location: (loc(), loc()) },
+                (k0 != 0) as usize + (k1 != 0) as usize + (k2 != 0) as usize,
+            ),
+            11 => (Expression::StaticMember { obj: leaf(), field_name: CompactString::new_inline("f"), dot_location: loc(), field_location: loc() }, 1),
+            12 => (Expression::DynamicMember { obj: leaf(), field_name: leaf(), bracket_location: (loc(), loc()) }, 2),
+            13 => (Expression::FuncCall { func: leaf(), args: vec![*leaf(), *leaf(), *leaf()], paren_location: (loc(), loc()) }, 4),
+            14 => un!(Reverse),
+            15 => un!(BitReverse),
+            16 => un!(Positive),
+            17 => un!(Negative),
+            18 => un!(TypeOf),
+            19 => un!(Void),
+            20 => bin!(Multiply),
+            21 => bin!(Divide),
+            22 => bin!(Remainer),
+            23 => bin!(Plus),
+            24 => bin!(Minus),
+            25 => bin!(LeftShift),
+            26 => bin!(RightShift),
+            27 => bin!(UnsignedRightShift),
+            28 => bin!(Lt),
+            29 => bin!(Gt),
+            30 => bin!(Lte),
+            31 => bin!(Gte),
+            32 => bin!(InstanceOf),
+            33 => bin!(Eq),
+            34 => bin!(Ne),
+            35 => bin!(EqFull),
+            36 => bin!(NeFull),
+            37 => bin!(BitAnd),
+            38 => bin!(BitXor),
+            39 => bin!(BitOr),
+            40 => bin!(LogicAnd),
+            41 => bin!(LogicOr),
+            42 => bin!(NullishCoalescing),
+            _ => (Expression::Cond { cond: leaf(), true_br: leaf(), false_br: leaf(), question_location: loc(), colon_location: loc() }, 3),
+        }
+    }
+    /// (children yielded by sub_expressions, by sub_expressions_mut, expected) - each child identified by address
+    pub fn count(v: u8, k0: u8, k1: u8, k2: u8) -> (usize, usize, usize) {
+        let (mut e, expected) = form(v, k0, k1, k2);
+        let mut n = 0usize;
+        {
+            let mut it = e.sub_expressions();
+            let mut prev: *const Expression = std::ptr::null();
+            while let Some(x) = it.next() {
+                // every yielded child is a distinct node (the iterator never yields the same child twice in a row)
+                if std::ptr::eq(x, prev) {
+                    return (usize::MAX, 0, expected);
+                }
+                prev = x;
+                n += 1;
+            }
+        }
+        let mut m = 0usize;
+        {
+            let mut it = e.sub_expressions_mut();
+            while let Some(_) = it.next() {
+                m += 1;
+            }
+        }
+        std::mem::forget(e);
+        (n, m, expected)
+    }
+}
+
+pub fn sub_expr_counts(v: u8, k0: u8, k1: u8, k2: u8) -> (usize, usize, usize) {
+    forms::count(v, k0, k1, k2)
+}
+
+#[cfg(kani)]
+mod harness {
+    use super::super::*;
+    use super::forms::{afk, leaf, loc, ofk};
+    use crate::parse::{ParseState, Position};
+    use compact_str::CompactString;
+
+    fn fail_stub(_s: &str, _b: usize, _e: usize) -> ! {
+        panic!("slice_error_fail")
+    }
+    fn parse_stub<F: std::str::FromStr>(_s: &str) -> Result<F, F::Err> {
+        // str::parse: only f64 is reachable from parse_number; contract: any f64 or Err
+        assert!(std::mem::size_of::<F>() == 8);
+        if kani::any() {
+            let v: f64 = kani::any();
+            Ok(unsafe { std::mem::transmute_copy::<f64, F>(&v) })
+        } else {
+            Err(unsafe { std::mem::transmute_copy::<u8, F::Err>(&0u8) })
+        }
+    }
+
+    // both iterators must yield exactly `expected` children
+    fn check(mut e: Expression, expected: usize) {
+        let mut n = 0usize;
+        {
+            let mut it = e.sub_expressions();
+            while let Some(_) = it.next() {
+                n += 1;
+            }
+        }
+        let mut m = 0usize;
+        {
+            let mut it = e.sub_expressions_mut();
+            while let Some(_) = it.next() {
+                m += 1;
+            }
+        }
+        assert!(n == expected);
+        assert!(m == expected);
+        std::mem::forget(e);
+    }
+    macro_rules! bin {
+        ($v:ident) => {
+            (Expression::$v { left: leaf(), right: leaf(), location: loc() }, 2usize)
+        };
+    }
+    macro_rules! un {
+        ($v:ident) => {
+            (Expression::$v { value: leaf(), location: loc() }, 1usize)
+        };
+    }
+
+    // K05a / K07a: sub_expressions() and sub_expressions_mut() yield every child of every expression form
+    #[kani::proof]
+    #[kani::unwind(6)]
+    fn k05a_array_literal() {
+        let k0: u8 = kani::any();
+        let k1: u8 = kani::any();
+        let k2: u8 = kani::any();
+        kani::assume(k0 < 3 && k1 < 3 && k2 < 3); // 0 hole, 1 normal, 2 spread
+        let expected = (k0 != 0) as usize + (k1 != 0) as usize + (k2 != 0) as usize;
+        kani::cover!(k0 == 0 && k1 == 1);
+        kani::cover!(k0 == 2 && k1 == 0 && k2 == 0);
+        check(Expression::LitArr { fields: vec![afk(k0), afk(k1), afk(k2)], bracket_location: (loc(), loc()) }, expected);
+    }
+    #[kani::proof]
+    #[kani::unwind(6)]
+    fn k05a_object_literal() {
+        let k0: u8 = kani::any();
+        let k1: u8 = kani::any();
+        let k2: u8 = kani::any();
+        kani::assume(k0 < 2 && k1 < 2 && k2 < 2); // 0 named, 1 spread
+        kani::cover!(k0 == 1 && k1 == 0);
+        check(Expression::LitObj { fields: vec![ofk(k0), ofk(k1), ofk(k2)], brace_location: (loc(), loc()) }, 3);
+    }
+    #[kani::proof]
+    #[kani::unwind(4)]
+    fn k05a_members() {
+        let v: u8 = kani::any();
+        kani::assume(v < 2);
+        let (e, n) = match v {
+            0 => (Expression::StaticMember { obj: leaf(), field_name: CompactString::new_inline("f"), dot_location: loc(), field_location: loc() }, 1),
+            _ => (Expression::DynamicMember { obj: leaf(), field_name: leaf(), bracket_location: (loc(), loc()) }, 2),
+        };
+        kani::cover!(v == 1);
+        check(e, n);
+    }
+    #[kani::proof]
+    #[kani::unwind(5)]
+    fn k05a_call() {
+        check(Expression::FuncCall { func: leaf(), args: vec![*leaf(), *leaf()], paren_location: (loc(), loc()) }, 3);
+    }
+    #[kani::proof]
+    #[kani::unwind(5)]
+    fn k05a_cond() {
+        check(Expression::Cond { cond: leaf(), true_br: leaf(), false_br: leaf(), question_location: loc(), colon_location: loc() }, 3);
+    }
+    #[kani::proof]
+    #[kani::unwind(5)]
+    fn k05a_array_literal2() {
+        let k0: u8 = kani::any();
+        let k1: u8 = kani::any();
+        kani::assume(k0 < 3 && k1 < 3); // 0 hole, 1 normal, 2 spread
+        let expected = (k0 != 0) as usize + (k1 != 0) as usize;
+        kani::cover!(k0 == 0 && k1 == 1);
+        check(Expression::LitArr { fields: vec![afk(k0), afk(k1)], bracket_location: (loc(), loc()) }, expected);
+    }
+    #[kani::proof]
+    #[kani::unwind(4)]
+    fn k05a_leaves_and_unary() {
+        let v: u8 = kani::any();
+        kani::assume(v < 15);
+        let (e, n) = match v {
+            0 => (Expression::ScopeRef { location: loc(), index: 0 }, 0),
+            1 => (Expression::DataField { name: CompactString::new_inline("a"), location: loc() }, 0),
+            2 => (Expression::LitUndefined { location: loc() }, 0),
+            3 => (Expression::LitNull { location: loc() }, 0),
+            4 => (Expression::LitStr { value: CompactString::new_inline("s"), location: loc() }, 0),
+            5 => (Expression::LitInt { value: 1, location: loc() }, 0),
+            6 => (Expression::LitFloat { value: 1.5, location: loc() }, 0),
+            7 => (Expression::LitBool { value: true, location: loc() }, 0),
+            8 => un!(ToStringWithoutUndefined),
+            9 => un!(Reverse),
+            10 => un!(BitReverse),
+            11 => un!(Positive),
+            12 => un!(Negative),
+            13 => un!(TypeOf),
+            _ => un!(Void),
+        };
+        kani::cover!(v == 14);
+        check(e, n);
+    }
+    #[kani::proof]
+    #[kani::unwind(4)]
+    fn k05a_binary_a() {
+        let v: u8 = kani::any();
+        kani::assume(v < 12);
+        let (e, n) = match v {
+            0 => bin!(Multiply),
+            1 => bin!(Divide),
+            2 => bin!(Remainer),
+            3 => bin!(Plus),
+            4 => bin!(Minus),
+            5 => bin!(LeftShift),
+            6 => bin!(RightShift),
+            7 => bin!(UnsignedRightShift),
+            8 => bin!(Lt),
+            9 => bin!(Gt),
+            10 => bin!(Lte),
+            _ => bin!(Gte),
+        };
+        kani::cover!(v == 11);
+        check(e, n);
+    }
+    #[kani::proof]
+    #[kani::unwind(4)]
+    fn k05a_binary_b() {
+        let v: u8 = kani::any();
+        kani::assume(v < 11);
+        let (e, n) = match v {
+            0 => bin!(InstanceOf),
+            1 => bin!(Eq),
+            2 => bin!(Ne),
+            3 => bin!(EqFull),
+            4 => bin!(NeFull),
+            5 => bin!(BitAnd),
+            6 => bin!(BitXor),
+            7 => bin!(BitOr),
+            8 => bin!(LogicAnd),
+            9 => bin!(LogicOr),
+            _ => bin!(NullishCoalescing),
+        };
+        kani::cover!(v == 10);
+        check(e, n);
+    }
+
+    // K05b: convert_scopes on a leaf: the innermost (last) matching scope wins, otherwise it stays a data field
+    #[kani::proof]
+    #[kani::unwind(6)]
+    fn k05b_convert_scopes_leaf() {
+        let names = ["a", "b"];
+        let s0: usize = kani::any();
+        let s1: usize = kani::any();
+        let s2: usize = kani::any();
+        let x: usize = kani::any();
+        kani::assume(s0 < 2 && s1 < 2 && s2 < 2 && x < 2);
+        let nscopes: usize = kani::any();
+        kani::assume(nscopes <= 3);
+        let scopes = [
+            (CompactString::new_inline(names[s0]), loc()),
+            (CompactString::new_inline(names[s1]), loc()),
+            (CompactString::new_inline(names[s2]), loc()),
+        ];
+        let mut e = Expression::DataField { name: CompactString::new_inline(names[x]), location: loc() };
+        e.convert_scopes(&scopes[..nscopes]);
+        let ss = [s0, s1, s2];
+        let mut expect: Option<usize> = None;
+        let mut i = 0;
+        while i < nscopes {
+            if ss[i] == x {
+                expect = Some(i);
+            }
+            i += 1;
+        }
+        kani::cover!(expect == Some(2));
+        kani::cover!(expect.is_none() && nscopes == 3);
+        match (&e, expect) {
+            (Expression::ScopeRef { index, .. }, Some(i)) => assert!(*index == i),
+            (Expression::DataField { .. }, None) => {}
+            _ => assert!(false),
+        }
+        std::mem::forget(e);
+        std::mem::forget(scopes);
+    }
+
+    // K01a: parse_number on "0x" + 2 symbolic ASCII bytes: no panic (cross-check of engine M's M01b on small inputs)
+    #[kani::proof]
+    #[kani::unwind(5)]
+    #[kani::stub(core::str::slice_error_fail, fail_stub)]
+    #[kani::stub(str::parse, parse_stub)]
+    fn k01a_parse_number_hex2() {
+        let mut b = [b'0', b'x', 0u8, 0u8];
+        b[2] = kani::any();
+        b[3] = kani::any();
+        kani::assume(b[2] < 0x80 && b[2] != 0 && b[3] < 0x80 && b[3] != 0);
+        let s = unsafe { std::str::from_utf8_unchecked(&b) };
+        let mut ps = ParseState::new("", s, Position::default());
+        let r = Expression::parse_number(&mut ps);
+        kani::cover!(r.is_some());
+        kani::cover!(r.is_none());
+        std::mem::forget(r);
+        std::mem::forget(ps);
+    }
+}
